@@ -5,6 +5,7 @@ package main
 
 import (
 	"fmt"
+	"go/token"
 	"go/types"
 	"strings"
 
@@ -236,6 +237,9 @@ func rulesC11(cx *Ctx) []Obligation {
 		for _, id := range e.rec.Loops {
 			ld := r.In.Loops[id]
 			sl := ld.S
+			if strings.HasPrefix(e.label, "squeeze") && !sl.Counted && fillUntilLen(sl) {
+				continue // `for len(out) < n { out = append(out, squeeze()) }`: n iterations
+			}
 			if strings.HasPrefix(e.label, "squeeze") && ld.Bound != nil && len(ld.Bound.LenOf) == 0 {
 				// counted by a configuration value (number of challenges / queries)
 				if !sl.Counted || !sl.SingleExit || sl.Step != 1 || sl.StartConst == nil || *sl.StartConst != 0 {
@@ -243,8 +247,14 @@ func rulesC11(cx *Ctx) []Obligation {
 				}
 				continue
 			}
+			if constArrayLoop(sl) {
+				continue // for i := 0; i < N; i++ over a value of array type [N]T: every element
+			}
 			if !sl.Counted || !sl.SingleExit || sl.Step != 1 || sl.StartConst == nil || *sl.StartConst != 0 || ld.Bound == nil || len(ld.Bound.LenOf) == 0 {
 				bads = "loop at " + ld.FnPos + " does not visit every element (start, step, bound or early exit)"
+			}
+			if ld.Bound == nil {
+				continue
 			}
 			for _, l := range ld.Bound.LenOf {
 				if strings.Contains(l, "[s:") {
@@ -431,4 +441,107 @@ func ruleBufferReset(cx *Ctx) []Obligation {
 		return r
 	}
 	return []Obligation{bad(key, desc, "ObserveElement does not store to the output buffer ("+outField+")")}
+}
+
+// fillUntilLen: the loop `for len(out) < n { …; out = append(out, x) }` — out is a header φ that starts as an empty
+// slice and grows by exactly one element in every iteration; no other exit. It runs n times.
+func fillUntilLen(sl *SLoop) bool {
+	if sl == nil || !sl.SingleExit {
+		return false
+	}
+	h := sl.Header
+	iff, ok := h.Instrs[len(h.Instrs)-1].(*ssa.If)
+	if !ok || len(h.Succs) != 2 || !sl.Blocks[h.Succs[0]] {
+		return false
+	}
+	cmp, ok := iff.Cond.(*ssa.BinOp)
+	if !ok || cmp.Op != token.LSS {
+		return false
+	}
+	lx, ok := lenOfVal(cmp.X)
+	if !ok {
+		return false
+	}
+	phi, ok := lx.(*ssa.Phi)
+	if !ok || phi.Block() != h {
+		return false
+	}
+	fi := GetFnInfo(sl.Fn)
+	for i, p := range h.Preds {
+		e := phi.Edges[i]
+		if sl.Blocks[p] {
+			c, ok := e.(*ssa.Call)
+			if !ok {
+				return false
+			}
+			bi, ok := c.Common().Value.(*ssa.Builtin)
+			if !ok || bi.Name() != "append" || len(c.Common().Args) != 2 || c.Common().Args[0] != ssa.Value(phi) || !mustInLoop(fi, sl, c.Block()) {
+				return false
+			}
+			// exactly one appended element: the variadic temporary is an array of length 1
+			vs, ok := c.Common().Args[1].(*ssa.Slice)
+			if !ok {
+				return false
+			}
+			al, ok := vs.X.(*ssa.Alloc)
+			if !ok {
+				return false
+			}
+			at, ok := al.Type().Underlying().(*types.Pointer).Elem().Underlying().(*types.Array)
+			if !ok || at.Len() != 1 {
+				return false
+			}
+		} else {
+			mk, ok := e.(*ssa.MakeSlice)
+			if !ok {
+				return false
+			}
+			if n, ok := constInt(mk.Len); !ok || n != 0 {
+				return false
+			}
+		}
+	}
+	return true
+}
+
+// constArrayLoop: a plain loop i = 0 … N−1 with a constant N whose index reads an array (value or pointer) of
+// exactly N elements — and indexes nothing of another length
+func constArrayLoop(sl *SLoop) bool {
+	if sl == nil || !sl.Counted || !sl.SingleExit || sl.Step != 1 || sl.StartConst == nil || *sl.StartConst != 0 || sl.Op != token.LSS {
+		return false
+	}
+	n, ok := constInt(stripCopies(sl.Bound))
+	if !ok || n <= 0 {
+		return false
+	}
+	found := false
+	for b := range sl.Blocks {
+		for _, ins := range b.Instrs {
+			var x ssa.Value
+			switch u := ins.(type) {
+			case *ssa.IndexAddr:
+				if u.Index != sl.IndexVal {
+					continue
+				}
+				x = u.X
+			case *ssa.Index:
+				if u.Index != sl.IndexVal {
+					continue
+				}
+				x = u.X
+			default:
+				continue
+			}
+			t := x.Type().Underlying()
+			if pt, ok := t.(*types.Pointer); ok {
+				t = pt.Elem().Underlying()
+			}
+			at, ok := t.(*types.Array)
+			if !ok || at.Len() != n {
+				return false
+			}
+			found = true
+		}
+	}
+	return found
 }
